@@ -13,7 +13,7 @@ SEQ = ("TLC generates histories as behaviours of MintGen.tla (simulation, seeded
        "recorded step (request facts, actual reply, raw-store projection) is validated by TLC against MintAPI (MintTrace.tla): "
        "verdict vs Causes, allowed post-states, and every state invariant in every state. ")
 
-L2 = (" Layer 2 (MintSteps.tla: one action per storage / Lightning call, the two mutexes, the in-progress guard) is model-checked exhaustively by TLC over all interleavings of 2-4 requests with every Lightning outcome (16 scenarios that must hold, 4 defective variants - earlier states of the repository - that must be rejected), and every call sequence the explorer records on the real mint is validated against it by TLC (MintStepsTrace.tla; a corrupted sequence must be rejected in the same run); a MintSteps counterexample is replayed on the real mint as a fixed schedule (late Lightning answers are a scheduling point) before anything is reported.")
+L2 = (" Layer 2 (MintSteps.tla: one action per storage / Lightning call, the two mutexes, the in-progress guard) is model-checked exhaustively by TLC over all interleavings of 2-5 requests (thorough: 7) with every Lightning outcome (23 scenarios that must hold incl. the truth of the state-check reply, 7 defective variants - earlier states of the repository and seeded changes - that must be rejected), and every call sequence the explorer records on the real mint is validated against it by TLC (MintStepsTrace.tla; a corrupted sequence must be rejected in the same run); a MintSteps counterexample is replayed on the real mint as a fixed schedule (late Lightning answers are a scheduling point) before anything is reported. C01 also replays behaviours of MintSteps drawn by TLC -simulate (four and five concurrent requests) on the real mint; where a recorded call sequence leaves the model, the completions of that schedule are enumerated (drift-directed exploration).")
 
 CHECKS = {
     "C01": dict(
